@@ -19,6 +19,7 @@ RULE = (
     "input, None only while the bytes can still grow, whole table sequences under their table name, merging only after a table "
     "sequence that is a proper prefix of a longer one, characters as themselves. Non-trivial: tree nodes at depth >=2; streams with "
     ">=1 multi-byte token where the decoder had to wait."
+    ' The same enumeration is repeated under other spellings of the three encodings (UTF-8, utf8, ANSI_X3.4-1968, US-ASCII, ISO-8859-1, latin1); an end-to-end stage feeds every table sequence straddling a read-size boundary through Input.send (C08 harness).'
 )
 ASSUMPTIONS = [
     "the two name tables are the specification of 'table name' and are read from the code under test as data",
